@@ -131,6 +131,57 @@ func (cs c17Case) print() (pat, text string, span []string) {
 	return sb.String(), text, span
 }
 
+// printOpt is print with every top-level group made optional (`…)?`); top[i] is the top-level event that
+// encloses event i (itself for a top-level one).  Letters are unique, so the subject without the text of
+// one top-level group can only be matched with exactly that group (and everything in it) not participating.
+func (cs c17Case) printOpt() (pat string, top []int) {
+	var sb strings.Builder
+	n := len(cs.Evs)
+	top = make([]int, n)
+	var stack []int
+	closeOne := func() {
+		stack = stack[:len(stack)-1]
+		sb.WriteByte(')')
+		if len(stack) == 0 {
+			sb.WriteByte('?')
+		}
+	}
+	for i, e := range cs.Evs {
+		for u := 0; u < e.Up && len(stack) > 0; u++ {
+			closeOne()
+		}
+		switch e.K {
+		case "u":
+			sb.WriteString("(")
+		case "x":
+			sb.WriteString("(?:")
+		case "n", "k":
+			id := e.Name
+			if e.K == "k" {
+				id = strconv.Itoa(e.Num)
+				if e.Sp == 3 {
+					id = "0" + id
+				}
+			}
+			switch {
+			case e.Sp == 1:
+				sb.WriteString("(?'" + id + "'")
+			case e.Sp == 2 && e.K == "n":
+				sb.WriteString("(?P<" + id + ">")
+			default:
+				sb.WriteString("(?<" + id + ">")
+			}
+		}
+		sb.WriteString(c17Lit(i))
+		stack = append(stack, i)
+		top[i] = stack[0]
+	}
+	for len(stack) > 0 {
+		closeOne()
+	}
+	return sb.String(), top
+}
+
 // closing rank of every event: the group that closes later makes the later capture
 func (cs c17Case) closeRank() []int {
 	n := len(cs.Evs)
@@ -684,6 +735,87 @@ func c17Oracle(cs c17Case) (obs c17Obs, fail *core.Failure, buckets []string) {
 			}
 		}
 	}
+	// D2. conditionals: (?(N)yes|no) and (?(name)yes|no) test the group that N / name designate everywhere
+	// else.  Every top-level group is made optional and the subject is given with and without the text of
+	// one top-level group, so that some groups participate and others do not.
+	if fail == nil && !hasBal && !cs.Ecma && !cs.Re2 {
+		patOpt, top := cs.printOpt()
+		removed := []int{-1}
+		for i := range cs.Evs {
+			if top[i] == i && len(removed) < 5 {
+				removed = append(removed, i)
+			}
+		}
+		for _, t := range removed {
+			subject := ""
+			part := map[int]bool{}
+			for i := range cs.Evs {
+				if top[i] != t {
+					subject += c17Lit(i)
+					if n := obs.evNum[i]; n > 0 {
+						part[n] = true
+					}
+				}
+			}
+			type cond struct {
+				src  string
+				want byte
+			}
+			var conds []cond
+			for i, n := range nums {
+				if n == 0 {
+					continue
+				}
+				if _, has := valNum[n]; !has {
+					continue
+				}
+				w := byte('N')
+				if part[n] {
+					w = 'Y'
+				}
+				conds = append(conds, cond{"(?(" + strconv.Itoa(n) + ")Y|N)", w})
+				if nm := names[i]; nm != "" && !c17AllDigits(nm) && !ambiguous(i) {
+					conds = append(conds, cond{"(?(" + nm + ")Y|N)", w})
+				}
+			}
+			var cp, cw strings.Builder
+			for _, c := range conds {
+				cp.WriteString(c.src)
+				cw.WriteByte(c.want)
+			}
+			if len(conds) == 0 {
+				break
+			}
+			okAll := false
+			if re3, err := regexp2.Compile(`\A(?:`+patOpt+`)`+cp.String()+`\z`, cs.opts()...); err == nil {
+				if mm, _ := re3.FindStringMatch(subject + cw.String()); mm != nil {
+					okAll = true
+				}
+			}
+			if okAll {
+				buckets = append(buckets, "conditionals-checked")
+				continue
+			}
+			for _, c := range conds {
+				re1, err := regexp2.Compile(`\A(?:`+patOpt+`)`+c.src+`\z`, cs.opts()...)
+				if err != nil {
+					bad(zk("cond-compile"), "conditional "+c.src+" on an existing group does not compile", "compiles", err.Error())
+					continue
+				}
+				if mm, _ := re1.FindStringMatch(subject + string(c.want)); mm == nil {
+					what := "participates"
+					if c.want == 'N' {
+						what = "does not participate"
+					}
+					bad(zk("cond-ref"), fmt.Sprintf("on subject %q the group designated by %s %s (GroupByNumber / the numbering rule), but the conditional takes the other branch", subject, c.src, what), string(c.want), "other branch")
+				}
+			}
+			if fail == nil {
+				bad(zk("cond-combined"), "the conditionals match one by one but not in sequence", cw.String(), "no match")
+			}
+			break
+		}
+	}
 	for _, r := range repls {
 		repl.WriteString("[" + r.src + "]")
 		replWant.WriteString("[" + r.want + "]")
@@ -898,7 +1030,7 @@ func init() {
 		}
 		core.RunLeg(c, core.Leg[c17Case]{
 			Name: "G", Kind: "correspondence+oracle",
-			Rule:   "random lists of 1-15 group-opening events (unnamed / named from a pool of 1-4 names incl. digit-like and non-ASCII names / explicitly numbered, dense and sparse, 1 in 8 written with a leading zero / non-capturing), random nesting, spellings (?<>, (?'', (?P<> (RE2), occasional balancing group; x {default, MaintainCaptureOrder, ECMAScript, RE2, ExplicitCapture and pairs}; every group wraps its own letter. non-trivial = at least two capturing groups; distinct by (mode, pattern). Each case: cross-API oracle on the Go engine (lists aligned/ascending, lookups inverse, Groups() order and names, GroupByName/GroupByNumber texts and nil for non-groups, documented numbering rule incl. explicit numbers booked in pattern order under MaintainCaptureOrder, \\k<name> \\N (?P=name) references, ${name} $N replacement, no panic) and Lean Groups.assign vs GetGroupNumbers/GetGroupNames/Code.Caps/Capsize/per-group numbers",
+			Rule:   "random lists of 1-15 group-opening events (unnamed / named from a pool of 1-4 names incl. digit-like and non-ASCII names / explicitly numbered, dense and sparse, 1 in 8 written with a leading zero / non-capturing), random nesting, spellings (?<>, (?'', (?P<> (RE2), occasional balancing group; x {default, MaintainCaptureOrder, ECMAScript, RE2, ExplicitCapture and pairs}; every group wraps its own letter. non-trivial = at least two capturing groups; distinct by (mode, pattern). Each case: cross-API oracle on the Go engine (lists aligned/ascending, lookups inverse, Groups() order and names, GroupByName/GroupByNumber texts and nil for non-groups, documented numbering rule incl. explicit numbers booked in pattern order under MaintainCaptureOrder, \\k<name> \\N (?P=name) references, (?(N)…) and (?(name)…) conditionals on subjects where some top-level groups participate and others do not, ${name} $N replacement, no panic) and Lean Groups.assign vs GetGroupNumbers/GetGroupNames/Code.Caps/Capsize/per-group numbers",
 			Corpus: corpus, N: c.N(6000, 200000), Gen: c17Gen, Check: c17Check,
 		})
 	})
